@@ -112,6 +112,9 @@ class Compiler:
         # always be the case at this point, because we have added all the necessary
         # targets to the list of group-by expressions and should have resolved all
         # the indexes.
+        if group_indexes is None and any(c_target.is_aggregate for c_target in c_targets):
+            raise CompilationError('aggregates are not allowed in ORDER BY clause of a non-aggregate query')
+
         if group_indexes is not None:
             non_aggregate_indexes = {index for index, c_target in enumerate(c_targets)
                                      if not c_target.is_aggregate}
@@ -192,17 +195,7 @@ class Compiler:
             name = get_target_name(target)
             c_targets.append(EvalTarget(c_expr, name, is_aggregate(c_expr)))
 
-            columns, aggregates = get_columns_and_aggregates(c_expr)
-
-            # Check for mixed aggregates and non-aggregates.
-            if columns and aggregates:
-                raise CompilationError('mixed aggregates and non-aggregates are not allowed')
-
-            # Check for aggregates of aggregates.
-            for aggregate in aggregates:
-                for child in aggregate.childnodes():
-                    if is_aggregate(child):
-                        raise CompilationError('aggregates of aggregates are not allowed')
+            check_aggregates(c_expr)
 
         return c_targets
 
@@ -262,6 +255,7 @@ class Compiler:
                 # targets to evaluate and index into that new target.
                 if index is None:
                     c_expr = self._compile(column)
+                    check_aggregates(c_expr)
 
                     # Attempt to reconcile the expression with one of the existing
                     # target expressions.
@@ -412,6 +406,7 @@ class Compiler:
                 c_expr = self._compile(group_by.having)
                 if not is_aggregate(c_expr):
                     raise CompilationError('the HAVING clause must be an aggregate expression')
+                check_aggregates(c_expr)
                 having_index = len(new_targets)
                 new_targets.append(EvalTarget(c_expr, None, True))
                 c_target_expressions.append(c_expr)
@@ -719,6 +714,21 @@ def get_target_name(target):
     if isinstance(target.expression, ast.Column):
         return target.expression.name
     return target.expression.text.strip()
+
+
+def check_aggregates(c_expr):
+    """Check that an expression does not misuse aggregate functions."""
+    columns, aggregates = get_columns_and_aggregates(c_expr)
+
+    # Check for mixed aggregates and non-aggregates.
+    if columns and aggregates:
+        raise CompilationError('mixed aggregates and non-aggregates are not allowed')
+
+    # Check for aggregates of aggregates.
+    for aggregate in aggregates:
+        for child in aggregate.childnodes():
+            if is_aggregate(child):
+                raise CompilationError('aggregates of aggregates are not allowed')
 
 
 def get_columns_and_aggregates(node):
